@@ -42,3 +42,66 @@ prop("C07", "TestC07", q, t,
      level_note="Trusted: the reference evaluator (ref_path_test.go, ~100 lines, written from the documentation); leniency 7 of DESIGN.md "
                 "(a plain step does not enter a list that is a direct member of a list). Bounded sizes; no proof of absence.",
      design_ref="DESIGN.md section 4, C07")
+
+q, t = tiers(5000, 150000)
+prop("C01", "TestC01", q, t,
+     rule="rapid draws an option set (attribute prefix x key prefix x 2^6 decoder switches x cast switches) and an abstract XML document "
+          "(names from a 13-name alphabet with folding collisions, namespaced names, xmlns declarations, 0-3 attributes, text alone / at any position among children, "
+          "CDATA and numeric character references, inter-element whitespace incl. CR/LF, occasional 33-80 children); the document is serialised by the harness. "
+          "Non-trivial: >=2 elements AND (interleaved repeated sibling OR key collision by folding/empty prefix OR text beside attributes/children OR an option that changes the expected Map); "
+          "distinct = hash of (options, document).",
+     bounds="depth <= 4, fan-out 1-4 (33-80 for wide nodes), <= 3 attributes, text of 1-6 tokens from a 47-token hostile alphabet",
+     technique="property-based testing (rapid): generated documents x option sets against a hand-written reference decoder of the documented XML->Map conventions",
+     level_text="Generated-input search: NewMapXml, NewMapXmlReader (ByteReader and plain Reader), NewMapXmlReaderRaw and x2j.XmlToMap are compared with an "
+                "independent reference decoder (refDecode, written from doc.go/readme/option comments) for every generated document and option combination.",
+     level_note="Trusted: the reference decoder and the harness serializer. Narrowings (DESIGN.md C01): attribute names distinct after folding, lower-case attribute prefixes, "
+                "no element named like a reserved key, blank runs under keep-spaces contain no spaces. Bounded sizes.",
+     design_ref="DESIGN.md section 4, C01")
+
+q, t = tiers(5000, 150000)
+prop("C02", "TestC02", q, t,
+     rule="C01 documents x symmetric option sets (non-empty attribute prefix, key prefix, lower, snake, simple-as-map, keep-spaces, encoder- or decoder-side escaping, "
+          "float/bool cast, Go empty-element syntax) x {Xml, XmlIndent(blank prefix, blank indent)}. Non-trivial: the decoded Map contains a list, text plus children, "
+          "an attribute-only element, a value with a special character or blank edge, or a cast leaf; distinct = hash of the case.",
+     bounds="as C01; indent/prefix strings of <= 4 blanks (tabs only under keep-spaces)",
+     technique="property-based testing (rapid): round trip decode-encode-decode with a well-formedness oracle (strict encoding/xml) and the C01 reference decoder tying the first Map to the source document",
+     level_text="Generated-input search: m1=decode(doc) must equal the reference decode of the source tree, encode(m1) must be well formed with one root, and decode(encode(m1)) must equal m1, "
+                "for compact and indented encoders under every drawn symmetric option combination.",
+     level_note="Trusted: encoding/xml as well-formedness judge, the C01 reference decoder. Integer casting and tag sequence numbers excluded (documented asymmetric).",
+     design_ref="DESIGN.md section 4, C02")
+
+q, t = tiers(25000, 600000)
+prop("C03", "TestC03", q, t,
+     rule="rapid draws JSON-shaped values (maps, lists incl. empty/nested/mixed, strings from the hostile alphabet, numbers, booleans, nulls, '-k' and '#text' scalar entries, depth <= 4) "
+          "and an entry point (Map.Xml, Map.XmlIndent, AnyXml, AnyXmlIndent with default/explicit tags, j2x.JsonToXml). Non-trivial: the value contains a list with >=2 members, "
+          "a nested or empty list, a null inside a list, or attributes mixed with children; distinct = hash of the case.",
+     bounds="depth <= 4, <= 4 entries per map, <= 3 members per list",
+     technique="property-based testing (rapid): encode then decode, compared with a reference statement of the Map->XML conventions (refElems) composed with the C01 reference decoder",
+     level_text="Generated-input search: the output of five encoder entry points must be well formed with exactly one root and must decode to refDecode(refElems(value)), "
+                "which fixes key set, nesting, list order, scalar text, attribute/text placement and the four empty forms at once.",
+     level_note="Trusted: refElems/refDecode, encoding/xml. Narrowings: '-k'/'#text' values are non-null scalars; no root without an element name; keys are XML names.",
+     design_ref="DESIGN.md section 4, C03")
+
+q, t = tiers(4000, 100000)
+prop("C04", "TestC04", q, t,
+     rule="rapid draws documents with arbitrary interleaving of sibling names, prefixed names and xmlns attributes, ordered attributes, <=1 comment/PI/directive per element at any position, "
+          "text alone or before the children, inter-element whitespace, hostile values; MapSeq.Xml, MapSeq.XmlIndent, BeautifyXml and NewMapFormattedXmlSeq(indented) are each compared. "
+          "Non-trivial: non-contiguous repeated sibling, >=2 attributes, a comment/PI/directive between elements, or leading text with children; distinct = hash of the case.",
+     bounds="depth <= 4, fan-out 1-4 (33-80 wide), <= 3 attributes",
+     technique="property-based testing (rapid): round trip through the sequence codec compared token by token (encoding/xml RawToken stream as structs) with the source document",
+     level_text="Generated-input search: the normalised raw token stream (prefixed names, attribute order and values, trimmed text, comments/PIs/directives in position) of each encoder's output "
+                "must equal that of the generated source document.",
+     level_note="Trusted: encoding/xml RawToken as the token oracle; text is compared after trimming (inter-element whitespace is not significant per the property).",
+     design_ref="DESIGN.md section 4, C04")
+
+q, t = tiers(25000, 500000)
+prop("C05", "TestC05", q, t,
+     rule="four clauses drawn per case: (a) encoder-side escaping - hostile strings in element, attribute and text-beside-child positions of a Map/MapSeq, four encoders, exact value recovery; "
+          "(b) decoder-side escaping - generated documents, decode-with-escaping/encode/plain-decode equals plain decode (Map) or equal token streams (MapSeq); "
+          "(c) escaping off + XmlCheckIsValid - error or well-formed output, and the check never changes returned bytes; (d) call sequences over the two coupled escaping switches against a model. "
+          "Non-trivial: some string holds one of & < > \" ' (a,b,c) / both switches are called (d); distinct = hash of the case.",
+     bounds="strings of 1-6 tokens from a 25-token alphabet; documents depth <= 3; 1-5 switch calls",
+     technique="property-based testing (rapid): round-trip value recovery, metamorphic relation between escaping modes, validity oracle (strict encoding/xml), small model of the coupled switches",
+     level_text="Generated-input search over strings x positions x four encoders x escaping modes x validity switch with the oracles named in the rule.",
+     level_note="Trusted: encoding/xml as validity judge. Element text is compared after the documented trimming.",
+     design_ref="DESIGN.md section 4, C05")
